@@ -2,18 +2,26 @@
 """prints the prompt for a seeding sub-agent for property <id> (only the property text + scratch worktree path)"""
 import json, sys
 pid = sys.argv[1]
+rnd = sys.argv[2] if len(sys.argv) > 2 else ""      # e.g. "r3": separate worktree/output directory per round
+import glob, os
+avoid = []
+for mf in sorted(glob.glob('/verif/seeded/%s-*/meta.json' % pid)):
+    try: avoid.append(json.load(open(mf)).get("files", ""))
+    except Exception: pass
 for l in open('/verif/properties.jsonl'):
     p = json.loads(l)
     if p['id'] == pid:
         break
-wt = "/tmp/seed-%s" % pid
-out = "/tmp/seedout-%s" % pid
+wt = "/tmp/seed%s-%s" % (rnd, pid)
+out = "/tmp/seedout%s-%s" % (rnd, pid)
 print(f"""You are testing how well a semantic property of the Go project cloudflare/pint (a Prometheus rule linter) can be broken by a realistic code change without anyone noticing.
 
 You have your own scratch git worktree of the project at {wt} (detached HEAD of the current tree). Work ONLY inside {wt} and write your deliverables to {out}/ (create it). Do not read or write anything under /verif or /repo, and do not look at other /tmp/seed* directories.
 
 THE PROPERTY (id {pid}):
 {json.dumps(p, indent=1)}
+
+Earlier testers already changed these places (pick DIFFERENT functions/mechanisms): {"; ".join(a for a in avoid if a) or "none"}.
 
 TASK: produce TWO independent changes to the project's Go source (different mechanisms / different functions if at all possible), each of which
  (a) still compiles (`go build ./...`),
